@@ -40,6 +40,10 @@ CLAIMED = {
  'C03': dict(tech="TLC-judged enumeration of the code's inverse pairs on whole finite domains / GF(2) bases (S-boxes, permutations, linear layers, rol/ror for all widths <= 8/10, index maps) + end-to-end dec(enc(B)) = B = enc(dec(B)) with both directions also compared with the TLA+ ciphers",
              text="Component pairs are decided completely (finite domains enumerated, linear maps on a basis); cipher round trips are sampled by key/block class for every cipher and size, and each enc/dec is also compared with the specification so that a consistent pair of wrong functions is caught.",
              ref="DESIGN.md section 7 C03"),
+
+ 'C05': dict(tech="TLC: SP 800-38A modes over a toy cipher model-checked on every message of 0..7 bytes (round trip, domain, shape, counter blocks incl. wrap) + the same complete space replayed on the real ECB/CBC/CTR/CTS classes over the same toy cipher and a residue grid over the real ciphers, every result trace-validated by TLC",
+             text="Mode logic is decided exhaustively for small messages: the real mode classes run over a Python object implementing the specification's toy cipher and every ciphertext/plaintext is compared by TLC (2- and 4-byte blocks, all admissible paddings, IV classes, counter halves at 0/max-1/max).  With the real ciphers (AES-128/192/256, DES, TDEA, Serpent, Threefish-256/512/1024) keys/IVs are random and lengths cover every residue class boundary over 0..3 blocks; CTS is held to length, IV prefix and round trip.",
+             ref="DESIGN.md section 7 C05"),
 }
 PENDING = "check not built yet in this tree (specification modules are being written; see DESIGN.md section 12 build order) - not claimed until its quick command runs clean"
 def main():
